@@ -375,7 +375,7 @@ func runHistories(res *hk.Result, scn int) {
 			return fmt.Sprintf("%s-sig-%x", name, fnv(b)), nil
 		}
 	}
-	ops := []string{"P-listed", "P-unlisted", "R-A", "R-B"}
+	ops := []string{"P-listed", "P-unlisted", "R-A", "R-B", "R-nil"}
 	var seq []int
 	var rec func()
 	run := func(init string) string {
@@ -388,6 +388,11 @@ func runHistories(res *hk.Result, scn int) {
 		}
 		for i, o := range seq {
 			switch ops[o] {
+			case "R-nil":
+				// a nil signer is rejected, and a rejected call changes nothing
+				if err := f.Rotate(nil); err == nil {
+					return fmt.Sprintf("step %d: Rotate(nil) was accepted", i)
+				}
 			case "R-A", "R-B":
 				name := ops[o][2:]
 				if err := f.Rotate(mkSigner(name, &calls)); err != nil {
@@ -549,7 +554,7 @@ func main() {
 			res.Samples = append(res.Samples, cases[job.Scn*chunk].String())
 			return res
 		},
-		Rule:        "the full product payload {plain, ID, Data, ID+Data, ID()==\"\", Data()==nil} x Format {unset, json, text, invalid} x Source {set, nil, empty} x Schema {nil, set, empty} x Signer {nil, succeeding, failing, failing while the context becomes done} x event type {listed, not listed for signing} x Predicate {nil, true, false, error} = 6912 cases on the real FormatterFilter; the emitted bytes are parsed back: required members, specversion 1.0, time, data (payload or Data()), content type, schema, indentation, fresh unique ids; signed iff signer and listed, serialized base64url-decodes to exactly the bytes the signer saw and to the unsigned document (byte-identical to an unsigned twin run when the id is fixed), serialized_hmac is the signer's result; failing signer => not forwarded; the document stored for the previously formatted event stays unchanged; invalid configurations and empty IDs rejected. Plus every history of up to 4 steps over {Process a listed type, Process an unlisted type, Rotate(A), Rotate(B)} from a filter without a signer or with signer A (680 histories): a listed event is signed by exactly the signer configured at that moment, an unlisted one never; and a signer with an empty / nil SignEventTypes list signs nothing.",
+		Rule:        "the full product payload {plain, ID, Data, ID+Data, ID()==\"\", Data()==nil} x Format {unset, json, text, invalid} x Source {set, nil, empty} x Schema {nil, set, empty} x Signer {nil, succeeding, failing, failing while the context becomes done} x event type {listed, not listed for signing} x Predicate {nil, true, false, error} = 6912 cases on the real FormatterFilter; the emitted bytes are parsed back: required members, specversion 1.0, time, data (payload or Data()), content type, schema, indentation, fresh unique ids; signed iff signer and listed, serialized base64url-decodes to exactly the bytes the signer saw and to the unsigned document (byte-identical to an unsigned twin run when the id is fixed), serialized_hmac is the signer's result; failing signer => not forwarded; the document stored for the previously formatted event stays unchanged; invalid configurations and empty IDs rejected. Plus every history of up to 4 steps over {Process a listed type, Process an unlisted type, Rotate(A), Rotate(B), Rotate(nil)} from a filter without a signer or with signer A (1560 histories): a listed event is signed by exactly the signer configured at that moment, an unlisted one never; and a signer with an empty / nil SignEventTypes list signs nothing.",
 		Assumptions: []string{"uniqueness of generated ids is checked across the cases of one worker process only (probabilistic property of a 10-character random id)"},
 		QuickBudget: 300 * time.Second, ThoroughBudget: 10 * time.Minute,
 	})
